@@ -46,8 +46,7 @@ func match(filter CompFilter, comp *ical.Component) (bool, error) {
 		return false, nil
 	}
 
-	var zeroDate time.Time
-	if filter.Start != zeroDate {
+	if !filter.Start.IsZero() || !filter.End.IsZero() {
 		match, err := matchCompTimeRange(filter.Start, filter.End, comp)
 		if err != nil {
 			return false, err
@@ -114,8 +113,7 @@ func matchPropFilter(filter PropFilter, comp *ical.Component) (bool, error) {
 		}
 	}
 
-	var zeroDate time.Time
-	if filter.Start != zeroDate {
+	if !filter.Start.IsZero() || !filter.End.IsZero() {
 		match, err := matchPropTimeRange(filter.Start, filter.End, field)
 		if err != nil {
 			return false, err
@@ -162,19 +160,19 @@ func matchCompTimeRange(start, end time.Time, comp *ical.Component) (bool, error
 		return false, err
 	}
 
-	// Event starts in time range
-	if eventStart.After(start) && (end.IsZero() || eventStart.Before(end)) {
+	// An unset bound of the time range is open. The event overlaps iff
+	// (start < DTEND AND end > DTSTART), or for a zero-length event
+	// (start <= DTSTART AND end > DTSTART).
+	if !end.IsZero() && !end.After(eventStart) {
+		return false, nil
+	}
+	if start.IsZero() {
 		return true, nil
 	}
-	// Event ends in time range
-	if eventEnd.After(start) && (end.IsZero() || eventEnd.Before(end)) {
-		return true, nil
+	if eventEnd.After(eventStart) {
+		return start.Before(eventEnd), nil
 	}
-	// Event covers entire time range plus some
-	if eventStart.Before(start) && (!end.IsZero() && eventEnd.After(end)) {
-		return true, nil
-	}
-	return false, nil
+	return !start.After(eventStart), nil
 }
 
 func matchPropTimeRange(start, end time.Time, field *ical.Prop) (bool, error) {
